@@ -720,6 +720,7 @@ err_t dstuPointCompress(octet xpoint[], const dstu_params* params,
 	// x == 0?
 	if (wwIsZero(x, ec->f->n))
 	{
+		memSetZero(xpoint, ec->f->no);
 		dstuEcClose(ec);
 		return ERR_OK;
 	}
